@@ -83,10 +83,10 @@ fn run_case(line: &str) -> String {
             Ok(a) => format!("{{\"ok\":true,\"ast\":{}}}", esc(&format!("{:?}", a))),
             Err(e) => format!("{{\"ok\":false,\"err\":{}}}", esc(&format!("{}", e))),
         },
-        "rt" => match parse_expression(&s) {
+        "rt" => match { let s2 = s.clone(); match std::panic::catch_unwind(move || parse_expression(&s2).map(|a| format!("{:?}", a))) { Ok(_) => parse_expression(&s), Err(_) => return "{\"panic\":true,\"stage\":\"parse\"}".to_string() } } {
             Ok(a) => {
-                let e1 = a.expr();
-                let d = a.describe();
+                let pr = std::panic::catch_unwind(std::panic::AssertUnwindSafe(|| (a.expr(), a.describe())));
+                let (e1, d) = match pr { Ok(x) => x, Err(_) => return "{\"panic\":true,\"stage\":\"print\"}".to_string() };
                 match parse_expression(&e1) {
                     Ok(b) => format!("{{\"ok\":true,\"ast\":{},\"expr\":{},\"ok2\":true,\"ast2\":{},\"expr2\":{},\"describe\":{}}}", esc(&format!("{:?}", a)), esc(&e1), esc(&format!("{:?}", b)), esc(&b.expr()), esc(&d)),
                     Err(e) => format!("{{\"ok\":true,\"ast\":{},\"expr\":{},\"ok2\":false,\"err2\":{},\"describe\":{}}}", esc(&format!("{:?}", a)), esc(&e1), esc(&format!("{}", e)), esc(&d)),
@@ -140,6 +140,13 @@ fn conv(s: &str) -> String {
     match ty {
         "i8" => int!(i8), "i16" => int!(i16), "i32" => int!(i32), "i64" => int!(i64), "i128" => int!(i128),
         "u8" => int!(u8), "u16" => int!(u16), "u32" => int!(u32), "u64" => int!(u64), "u128" => int!(u128),
+        "acc" => {
+            // every accessor on one value of each variant: which accept it (C17: exactly the accessor of its own type)
+            let v = match val { "none" => Value::None, "bool" => Value::from(true), "num" => Value::from(7), "frac" => execute("2.5", create_context!()).unwrap(), "str" => Value::from("s"),
+                                "list" => Value::List(vec![Value::from(1)]), "map" => Value::Map(vec![(Value::from(1), Value::from(2))]), "empty_list" => Value::List(vec![]), "zero" => Value::from(0), "false" => Value::from(false), "empty_str" => Value::from(""), _ => return "{\"bad\":true}".into() };
+            let r = format!("bool={} decimal={} string={} list={} integer={} float={}", v.clone().bool().is_ok(), v.clone().decimal().is_ok(), v.clone().string().is_ok(), v.clone().list().is_ok(), v.clone().integer().is_ok(), v.clone().float().is_ok());
+            format!("{{\"ok\":true,\"val\":{}}}", esc(&r))
+        }
         "dec" => match execute(val, create_context!()) { Ok(v) => format!("{{\"ok\":true,\"val\":{},\"int\":{}}}", esc(&format!("{:?}", v)), esc(&format!("{:?}", v.clone().integer().ok()))), Err(_) => "{\"ok\":false}".into() },
         _ => "{\"bad\":true}".into(),
     }
@@ -164,7 +171,8 @@ fn script(lines: &[String]) {
                 let tag = field(l, "tag").unwrap_or_default();
                 let p: i32 = field(l, "p").and_then(|x| x.parse().ok()).unwrap_or(100);
                 let assoc = if field(l, "assoc").unwrap_or_default() == "R" { InfixOpAssociativity::RIGHT } else { InfixOpAssociativity::LEFT };
-                register_infix_op(&s, p, InfixOpType::CALC, assoc, Arc::new(move |a, b| Ok(Value::List(vec![Value::from(tag.as_str()), a, b]))));
+                let ty = if field(l, "ty").unwrap_or_default() == "SETTER" { InfixOpType::SETTER } else { InfixOpType::CALC };
+                register_infix_op(&s, p, ty, assoc, Arc::new(move |a, b| Ok(Value::List(vec![Value::from(tag.as_str()), a, b]))));
                 "{\"ok\":true}".to_string()
             }
             "rtreg" => {
